@@ -16,4 +16,16 @@ CLAIMS = {
         note="Trusts harness/hapcfg (evaluator of the emitted directive subset) and the in-memory API client standing in for the informer cache; requests for which the docs define no winner (same path declared with both non-exact types) are exempt; Gateway API objects and ConfigMap/Pod events are exercised by other checks.",
         technique="stateful property-based testing (rapid): metamorphic differential, incremental history vs fresh full sync, on a behavioural normal form",
     ),
+    "C16": dict(
+        text="Millions of group/replica/initial-weight vectors through the real RebalanceWeight against an exact-rational reference, plus blue/green and Gateway worlds through the whole controller reading the weights of the written server lines. Bounded random exploration of the stated domain (0..256 x 0..40 replicas x 1..256).",
+        design_ref="DESIGN.md section 3, C16",
+        note="The reference encodes the documented scale rule with an inclusive tolerance of one unit; blue/green label selectors use one label name; endpoint slices are not used by the new controller.",
+        technique="property-based testing (rapid) against an exact rational reference model; pipeline differential on written weights",
+    ),
+    "C05": dict(
+        text="After every step of generated histories (shard counts 0/1/3/5, full and partial resyncs, emptied shards, reverted changes) the content of every file HAProxy would load is compared in both directions with the controller's current model: backends and servers exactly once, host rules, crt-list lines and userlists neither missing nor stale.",
+        design_ref="DESIGN.md section 3, C05",
+        note="Files-versus-model bookkeeping only (converter tracking gaps are C01's business); the model is read through the exported accessors of haproxy.Config; parsing by harness/hapcfg.",
+        technique="stateful property-based testing (rapid): invariant files == model after every step",
+    ),
 }
